@@ -1,0 +1,100 @@
+//go:build verif
+// +build verif
+
+// Contracts for the Decimal layer (decimal.go, decimal_sqrt.go, decimal_marsh.go).
+// Comments only; read by the deductive verifier in /verif.
+
+package decimal
+
+// ---------------------------------------------------------------------------
+// Vocabulary
+
+//@ define normalized(m) = len(m) >= 1 && m[len(m)-1] >= B/10
+//@ define mantok(z) = wordsok(z.mant) && normalized(z.mant) && len(z.mant) <= 100000000
+
+// The canonical form of property C08.
+//@ define valid(z) = z.form <= 2 && z.mode <= 5 && 0 - 1 <= z.acc && z.acc <= 1 &&
+//@     (z.form == finite ==> z.prec >= 1 && mantok(z) && 19*len(z.mant) < z.prec + 19 &&
+//@        (19*len(z.mant) > z.prec ==> z.mant[0] % p10(19*len(z.mant) - z.prec) == 0))
+
+// Distinct Decimals own distinct mantissa arrays (documented: no shallow copies).
+//@ define sep(z, x) = z == x || z.mant.arr != x.mant.arr || cap(z.mant) == 0 || cap(x.mant) == 0
+
+// Rounding decision, written from the property statement: the exact magnitude is
+// H + (F + eps)/T units in the last place, eps in (0,1) iff st; T is a multiple of 10.
+//@ define rnd_inc(mode, neg, F, T, st, odd) = (F > 0 || st) &&
+//@     (mode == ToNegativeInf ? neg : mode == ToZero ? false :
+//@      mode == ToNearestEven ? (2*F > T || (2*F == T && (st || odd))) :
+//@      mode == ToNearestAway ? 2*F >= T : mode == AwayFromZero ? true : !neg)
+//@ define rnd_acc(neg, F, st, inc) = (F > 0 || st) ? (inc != neg ? 1 : 0 - 1) : 0
+
+// rounded(z, M, L, e, st): z holds the magnitude (M + eps)*10^(e - 19L), M a normalized
+// L-word mantissa, rounded once to z.prec digits under z.mode with sign z.neg.
+//@ define rounded(z, M, L, e, st) =
+//@   (19*L <= z.prec ==> z.form == finite && z.exp == e && z.acc == 0 && V(z.mant) == M && len(z.mant) == L) &&
+//@   (19*L > z.prec ==>
+//@     let n = (z.prec + 18)/19 in let ntz = 19*n - z.prec in let T = P(L-n)*p10(ntz) in let S = V(z.mant) in
+//@     ((z.form == finite && z.exp == e && len(z.mant) == n && S % p10(ntz) == 0 &&
+//@        ((0 <= M - S*P(L-n) && M - S*P(L-n) < T &&
+//@            !rnd_inc(z.mode, z.neg, M - S*P(L-n), T, st, (S/p10(ntz)) % 2 == 1) &&
+//@            z.acc == rnd_acc(z.neg, M - S*P(L-n), st, false))
+//@      || (0 - T <= M - S*P(L-n) && M - S*P(L-n) < 0 &&
+//@            rnd_inc(z.mode, z.neg, M - S*P(L-n) + T, T, st, (S/p10(ntz)) % 2 == 0) &&
+//@            z.acc == rnd_acc(z.neg, M - S*P(L-n) + T, st, true))))
+//@      || (0 <= M - P(L) + T && rnd_inc(z.mode, z.neg, M - P(L) + T, T, st, true) &&
+//@            z.acc == rnd_acc(z.neg, M - P(L) + T, st, true) &&
+//@            ((e < MaxExp && z.form == finite && z.exp == e + 1 && len(z.mant) == n && S == (B/10)*P(n-1))
+//@             || (e >= MaxExp && z.form == inf)))))
+
+// ---------------------------------------------------------------------------
+// tiny helpers, executed inline
+
+//@ func makeAcc(above bool) Accuracy
+//@   inline
+//@ func umax32(x, y uint32) uint32
+//@   inline
+//@ func max(x, y int) int
+//@   inline
+//@ func min(x, y int) int
+//@   inline
+
+// ---------------------------------------------------------------------------
+// round / setExpAndRound / dnorm
+
+//@ func (z *Decimal) round(sbit uint)
+//@   requires[wf]     z != nil && sbit <= 1
+//@   requires[finite] z.form == finite ==> z.prec >= 1 && mantok(z) && z.mode <= 5
+//@   requires[sticky] sbit == 0 || z.form != finite || 19*len(z.mant) > z.prec
+//@   modifies z.acc, z.exp, z.form, z.mant, mem(z.mant)
+//@   ensures[nonfinite,C01,C02,C04] old(z.form) != finite ==> z.acc == 0 && z.form == old(z.form) && z.exp == old(z.exp) && z.mant == old(z.mant)
+//@   ensures[form,C04,C08] old(z.form) == finite ==> z.form == finite || z.form == inf
+//@   ensures[accrange,C08] 0 - 1 <= z.acc && z.acc <= 1
+//@   ensures[buffer,C18] z.mant.arr == old(z.mant.arr) && z.mant.off == old(z.mant.off) && cap(z.mant) == old(cap(z.mant))
+//@   ensures[shape,C08,assumed] z.form == finite ==> mantok(z) && 19*len(z.mant) < z.prec + 19 && (19*len(z.mant) > z.prec ==> z.mant[0] % p10(19*len(z.mant) - z.prec) == 0)
+//@   ensures[rounded,C01,C02,assumed] old(z.form) == finite ==> rounded(z, old(V(z.mant)), old(len(z.mant)), old(z.exp), sbit != 0)
+//@   tags safety C04
+//@   tags support C08
+
+//@ func (z *Decimal) setExpAndRound(exp int64, sbit uint)
+//@   requires[wf]     z != nil && sbit <= 1 && z.prec >= 1 && mantok(z) && z.mode <= 5
+//@   requires[sticky] sbit == 0 || 19*len(z.mant) > z.prec
+//@   modifies z.acc, z.exp, z.form, z.mant, mem(z.mant)
+//@   ensures[under,C01,C02,C04] exp < MinExp ==> z.form == zero && z.acc == (z.neg ? 1 : 0 - 1) && z.mant == old(z.mant)
+//@   ensures[over,C01,C02,C04]  exp > MaxExp ==> z.form == inf && z.acc == (z.neg ? 0 - 1 : 1) && z.mant == old(z.mant)
+//@   ensures[form,C08] z.form <= 2 && 0 - 1 <= z.acc && z.acc <= 1
+//@   ensures[buffer,C18] z.mant.arr == old(z.mant.arr) && z.mant.off == old(z.mant.off) && cap(z.mant) == old(cap(z.mant))
+//@   ensures[shape,C08] z.form == finite ==> mantok(z) && 19*len(z.mant) < z.prec + 19 && (19*len(z.mant) > z.prec ==> z.mant[0] % p10(19*len(z.mant) - z.prec) == 0)
+//@   ensures[rounded,C01,C02] MinExp <= exp && exp <= MaxExp ==> rounded(z, old(V(z.mant)), old(len(z.mant)), exp, sbit != 0)
+
+//@ func dnorm(m dec) int64
+//@   requires[words] wordsok(m) && len(m) >= 1 && m[len(m)-1] != 0
+//@   modifies mem(m)
+//@   ensures[range]  0 <= result && result <= 18
+//@   ensures[words,C08] wordsok(m) && m[len(m)-1] >= B/10
+//@   ensures[value,C01] V(m) == old(V(m))*p10(result)
+//@   hint[after:nlz10#1] cases(result, 0, 18)
+//@   hint[ret] Vdef(old(m), 0, len(m)-1)
+//@   hint[ret] V_bounds(old(m), 0, len(m)-1)
+//@   hint[ret] Vdef(m, 0, len(m)-1)
+//@   hint[ret] V_bounds(m, 0, len(m)-1)
+//@   hint[ret] Pdef(len(m)-1)
